@@ -743,6 +743,12 @@ pub mod trace_sink {
         fn enabled(&self, _: &Metadata<'_>) -> bool {
             true
         }
+        // "sometimes": every call site asks the dispatcher of the thread it runs on, every time (with "always" the
+        // interest would be cached process-wide and the threads without a subscriber would evaluate the macro
+        // arguments as well)
+        fn register_callsite(&self, _: &'static Metadata<'static>) -> tracing::subscriber::Interest {
+            tracing::subscriber::Interest::sometimes()
+        }
         fn new_span(&self, _: &span::Attributes<'_>) -> span::Id {
             span::Id::from_u64(1 + self.0.fetch_add(1, std::sync::atomic::Ordering::Relaxed))
         }
